@@ -207,6 +207,8 @@ RULES = [
     ("X-LITVALUE", "a literal argument evaluates to the text written in the query [shared]", lambda ctx: __import__("extra2").literal_is_its_text(ctx)),
     ("C02-R4", "quoted literals are never resolved as column / function names [shared with C02]", lambda ctx: __import__("c02").r4(ctx)),
     ("X-LEXEMS", "every lexem but an empty quoted string reaches the grammar (a blank string is a value) [shared]", lambda ctx: __import__("extra2").lexems_are_kept(ctx)),
+    ("X-NAMES", "column names and function names do not overlap (a bare word is tried as a column first) [shared]", lambda ctx: __import__("extra2").names_disjoint(ctx)),
+    ("X-BRACKETS", "wherever the parser tests for a closing bracket of one style it provides for the other style as well [shared]", lambda ctx: __import__("extra2").bracket_styles_agree(ctx)),
 ]
 
 EXPLANATION = (
